@@ -185,7 +185,7 @@ func c05(c *core.Ctx, r *core.Report) {
 			}
 			return ""
 		}, "exposer-table@"+core.FnName(ex), map[string]string{"stage-order": exposerRows["stage-order"], "failure-propagates": exposerRows["failure-propagates"], "expose-iff-condition": exposerRows["expose-iff-condition"]})
-	exposureStructure(c, r, l, "C05.R13", "C05.R13")
+		exposureStructure(c, r, l, "C05.R13", "C05.R13")
 	}
 
 	// ---- R1(c), R1(d), R3 and the initialization half of R2: decision table of the initialization function
